@@ -4,7 +4,7 @@
 pub mod refs;
 pub mod table;
 
-pub use table::{gen_tab, Tab, TV};
+pub use table::{gen_tab, out_of_range_quantiles, Tab, TV};
 
 use vengine::Src;
 
